@@ -12,12 +12,6 @@ line numbers) and the token-index ranges `pyRanges` of the functions of a sub-fo
 -/
 namespace CL.PyT
 
-/-- the number of line breaks before token `j` -/
-def nlAt (ps : List PTok) (j : Nat) : Nat := (ps[j]?.map (·.nl)).getD 0
-
-/-- the number of blank columns before token `j` -/
-def colAt (ps : List PTok) (j : Nat) : Nat := (ps[j]?.map (·.col)).getD 0
-
 theorem nlAt_eq {ps : List PTok} {j : Nat} {t : PTok} (h : ps[j]? = some t) : nlAt ps j = t.nl := by
   simp [nlAt, h]
 
